@@ -58,7 +58,11 @@ Definition expect_shortest (n : netlist) (nt : net) (what : string) (s t : ni_in
                  +++ ") but the hop distance is " +++ NS d +++ " links")
       | None => one "unreachable" (ni_name t +++ " is unreachable from " +++ ni_name s)
       end
-  | Failed _ _ => []   (* delivery is C02/C03's business *)
+  | Failed why at_ =>
+      (* a flit that never arrives does not traverse (hop distance - 1) routers either: the hardware's address
+         decoder falls back to output 0 when no rule matches, so such a flit wanders *)
+      one "not-traversed" (what +++ " from " +++ ni_name s +++ " to " +++ ni_name t +++ " is not delivered (" +++ why
+                           +++ " at " +++ at_ +++ "): the number of routers it traverses is not the hop distance")
   end.
 
 (* the header a source uses for destination t: its id (ID routing) or the emitted route word *)
@@ -371,7 +375,7 @@ Definition c09_deps (n : netlist) (nt : net) : list (string * string) :=
   flat_map (fun st => let '(s, t) := st in
               let go := match nt with Req => may_req s t | Rsp => may_rsp s t | Wide => false end in
               if go then match hdr_for n s t with
-                         | Ok h => consecutive (t_sigs (send n nt s h))
+                         | Ok h => consecutive (t_sigs (send_free n nt s h))
                          | Err _ => []
                          end
               else []) (ordered_pairs n).
